@@ -75,6 +75,10 @@ pub fn parse_htsvoice(input: &[u8]) -> Result<Voice, ModelParseError> {
     if global.num_streams != global.stream_type.len() {
         return Err(ModelParseError::StreamCountMismatch);
     }
+    if global.num_streams == 0 {
+        // the engine reads its default settings from the first (spectrum) stream
+        return Err(ModelParseError::StreamNotFound);
+    }
 
     let (duration_model, stream_models) = parse_data_section(in_data, &global, &stream, &position)?;
 
